@@ -352,6 +352,37 @@ func moreReads(cfg *ucfg.Config, k string, want interface{}, opts []ucfg.Option,
 			return fmt.Errorf("field %q evaluates to %s, but CountField = %d, want %d", k, canon.Show(want), n, wantN)
 		}
 	}
+	// typed primitive targets look at the type of the value first and convert it then: reading the chain of
+	// references twice is no re-entry, and a small number converts into every numeric kind
+	switch x := want.(type) {
+	case uint64, int64, float64, bool, string:
+		types := []reflect.Type{reflect.TypeOf(""), reflect.TypeOf((*interface{})(nil)).Elem()}
+		num := false
+		switch n := x.(type) {
+		case uint64:
+			num = n <= 100
+		case int64:
+			num = n >= 0 && n <= 100
+		case bool:
+			types = append(types, reflect.TypeOf(false))
+		}
+		if num {
+			types = append(types, reflect.TypeOf(uint16(0)), reflect.TypeOf(uint(0)), reflect.TypeOf(int8(0)), reflect.TypeOf(float32(0)), reflect.TypeOf([]uint8(nil)), reflect.TypeOf((*uint32)(nil)))
+		}
+		var fs []reflect.StructField
+		for i, t := range types {
+			fs = append(fs, reflect.StructField{Name: fmt.Sprintf("T%d", i), Type: t, Tag: reflect.StructTag(fmt.Sprintf(`config:"%s"`, k))})
+		}
+		out := reflect.New(reflect.StructOf(fs))
+		err := uc.Safe("Unpack", func() error { return cfg.Unpack(out.Interface(), opts...) })
+		if e := noCycle("Unpack into typed primitive fields", err); e != nil {
+			return e
+		}
+		if _, isStr := x.(string); err != nil && !isStr {
+			return fmt.Errorf("field %q evaluates to %s, but unpacking it into fields of types %v failed: %v", k, canon.Show(want), types, err)
+		}
+		r.Class("primitive read into typed targets")
+	}
 	switch x := want.(type) {
 	case []interface{}:
 		// typed list targets evaluate the elements one after the other
